@@ -9,7 +9,8 @@ TABLES = [("callpaths", "semantic_p3/call_paths_p3"), ("status", "semantic_p3/st
 
 # open known findings: method call on the object returned by a method call; call of a returned module-level function; third
 # calling context of one call site; callback field called through self
-WITNESSES = ("method_chain", "returned_named_function", "three_contexts_of_one_call_site", "callback_field_called_in_method")
+WITNESSES = ("method_chain", "returned_named_function", "three_contexts_of_one_call_site", "callback_field_called_in_method",
+             "import_module_attribute_call")
 
 
 def with_call(p):
@@ -71,6 +72,24 @@ def extra_programs():
                 "class A7:\n    def __init__(self, i):\n        self.inner = i\n")
     add("inherited_two_levels", ["o = C8(a)", "return o.m(b)"],
         helpers="class A8:\n    def __init__(self, v):\n        self.v = v\n    def m(self, d):\n        return self.v - d\n\nclass B8(A8):\n    pass\n\nclass C8(B8):\n    pass\n")
+    # calls through imports from other analysed files (each program is a directory: main.py + the modules)
+    def addm(name, head, lines, modules):
+        q = progs.prog(name, "F-call-multi", lines)
+        q["src"] = head + "\n" + q["src"]
+        q["modules"] = modules
+        P.append(q)
+    HM = "def g2(v):\n    out(v)\n    return v + 1\n\ndef g3(v):\n    return g2(v) * 2\n"
+    addm("import_from_function", "from helper import g2", ["return g2(a)"], {"helper": HM})
+    addm("import_from_function_calling_its_neighbour", "from helper import g3", ["if c:", "    return g3(a)", "return 0"], {"helper": HM})
+    addm("import_from_with_alias", "from helper import g2 as hh", ["return hh(b)"], {"helper": HM})
+    addm("import_from_class", "from helper import K2", ["o = K2(a)", "return o.m(b)"],
+         {"helper": "class K2:\n    def __init__(self, v):\n        self.v = v\n    def m(self, d):\n        return self.v - d\n"})
+    addm("import_from_two_modules", "from helper import g2\nfrom other import g4", ["return g2(a) - g4(b)"],
+         {"helper": HM, "other": "def g4(v):\n    return v * 4\n"})
+    addm("imported_function_as_callback", "from helper import g2", ["return ap9(g2, a)"], {"helper": HM + "\n"})
+    P[-1]["src"] = P[-1]["src"].replace("def f(", "def ap9(fn, v):\n    return fn(v)\n\ndef f(")
+    addm("import_module_attribute_call", "import helper", ["return helper.g2(a)"], {"helper": HM})
+    addm("import_reexported", "from middle import g2", ["return g2(a)"], {"middle": "from helper import g2\n", "helper": HM})
     add("overriding_method_chosen_by_branch", ["o = A9(a)", "if c:", "    o = B9(a)", "return o.m(b)"],
         helpers="class A9:\n    def __init__(self, v):\n        self.v = v\n    def m(self, d):\n        return self.v - d\n\n"
                 "class B9(A9):\n    def m(self, d):\n        return self.v + d\n")
@@ -94,10 +113,11 @@ def run(tier):
         "with symbolic arguments, appears as a call site in some path of semantic_p3/call_paths_p3, and (for non-recursive "
         "sites) the callee has statement status rows under the context hash((caller, stmt, callee))",
         "family: direct, keyword/default, nested-argument, closure, returned-function, callback, stored-function, recursion, "
-        "mutual recursion, constructor, method, method-chain, inherited and overriding method calls; single file",
+        "mutual recursion, constructor, method, method-chain, inherited and overriding method calls; multi-file: from-import of "
+        "functions / classes / aliases / re-exports, imported functions as callbacks, calls through the module object",
         "the interpreter's dispatch is validated against CPython by C01 on the same programs",
     ]
-    r.outside += ["multi-file imports (not in this round)", "getattr/eval, decorators, externs/mock code"]
+    r.outside += ["star imports, packages with __init__", "getattr/eval, decorators, externs/mock code"]
     programs = family(tier)
     tcommon.drive(r, programs, len(programs) - len(WITNESSES), "check_calls", "check_calls_reach",
                   "every executed call site is in the stored call paths, for all arguments", "semantic", TABLES, tier, chunk=4)
